@@ -878,5 +878,106 @@ pub fn div_3x2_mg10(u21: u128, u0: u64, d: u128, v: u64) -> /*+*/(res:/*-*/ (u64
 }
 //@ end
 
+//@ extract src/algorithms/div/small.rs fn div_nx1_normalized
+pub fn div_nx1_normalized(u: &mut [u64], d: u64) -> /*+*/(rem:/*-*/ u64/*+*/)
+    requires d as int >= B / 2
+    ensures
+        final(u).len() == old(u).len(),
+        lvr(old(u)@, 0, old(u).len() as int) == lvr(final(u)@, 0, old(u).len() as int) * d as int + rem as int,
+        (rem as int) < d as int,/*-*/
+{
+    /*+*/proof { assert((1u64 << 63) == 0x8000_0000_0000_0000u64) by(bit_vector); assert(B / 2 == 0x8000_0000_0000_0000); }/*-*/
+    vassert (d >= (1 << 63) );
+    let v = reciprocal(d);
+    let mut r: u64 = 0;
+    /*+*/let ghost len_ = u.len() as int;
+    let ghost old_s = u@;
+    let ghost fin = final(u)@;/*-*/
+    for u in /*+*/it:/*-*/ u.iter_mut().rev()
+        /*+*/invariant
+            len_ == old_s.len(), fin.len() == len_, it.seq().len() == len_,
+            d as int >= B / 2, is_reciprocal(d, v),
+            forall|j: int| 0 <= j < len_ ==> *(#[trigger] it.seq()[j]) == old_s[len_ - 1 - j],
+            forall|j: int| 0 <= j < len_ ==> *final(#[trigger] it.seq()[j]) == fin[len_ - 1 - j],
+            0 <= it.index@ <= len_,
+            (r as int) < d as int,
+            lvr(old_s, len_ - it.index@, len_) == lvr(fin, len_ - it.index@, len_) * d as int + r as int,/*-*/
+    {
+        /*+*/let ghost k = it.index@;
+        let ghost i = len_ - 1 - k;
+        let ghost r_in = r as int;
+        let ghost u_in = *u;/*-*/
+        let n = u128::join(r, *u);
+        /*+*/proof {
+            assert(u_in == old_s[i]);
+            lemma_fundamental_div_mod_converse(n as int, B, r_in, u_in as int);
+            assert(B * r_in == r_in * B) by(nonlinear_arith);
+        }/*-*/
+        let (q, r0) = div_2x1(n, d, v);
+        *u = q;
+        r = r0;
+        /*+*/proof {
+            assert(fin[i] == q);
+            let a = lvr(old_s, i + 1, len_);
+            let f = lvr(fin, i + 1, len_);
+            assert(lvr(old_s, i, len_) == u_in as int + B * a);
+            assert(lvr(fin, i, len_) == q as int + B * f);
+            assert((u_in as int + B * a) == (q as int + B * f) * d as int + r0 as int) by(nonlinear_arith)
+                requires a == f * d as int + r_in, q as int * d as int + r0 as int == r_in * B + u_in as int;
+        }/*-*/
+    }
+    /*+*/proof { assert(final(u)@ == fin); }/*-*/
+    r
+}
+//@ end
+
+//@ extract src/algorithms/div/small.rs fn div_nx2_normalized
+pub fn div_nx2_normalized(u: &mut [u64], d: u128) -> /*+*/(rem:/*-*/ u128/*+*/)
+    requires d as int >= B * B / 2
+    ensures
+        final(u).len() == old(u).len(),
+        lvr(old(u)@, 0, old(u).len() as int) == lvr(final(u)@, 0, old(u).len() as int) * d as int + rem as int,
+        rem < d,/*-*/
+{
+    /*+*/proof { assert((1u128 << 127) == 0x8000_0000_0000_0000_0000_0000_0000_0000u128) by(bit_vector); assert(B * B == 0x1_0000_0000_0000_0000_0000_0000_0000_0000) by(compute_only); }/*-*/
+    vassert (d >= (1 << 127) );
+    let v = reciprocal_2(d);
+    let mut remainder: u128 = 0;
+    /*+*/let ghost len_ = u.len() as int;
+    let ghost old_s = u@;
+    let ghost fin = final(u)@;/*-*/
+    for u in /*+*/it:/*-*/ u.iter_mut().rev()
+        /*+*/invariant
+            len_ == old_s.len(), fin.len() == len_, it.seq().len() == len_,
+            d as int >= B * B / 2, is_reciprocal_2(d, v),
+            forall|j: int| 0 <= j < len_ ==> *(#[trigger] it.seq()[j]) == old_s[len_ - 1 - j],
+            forall|j: int| 0 <= j < len_ ==> *final(#[trigger] it.seq()[j]) == fin[len_ - 1 - j],
+            0 <= it.index@ <= len_,
+            remainder < d,
+            lvr(old_s, len_ - it.index@, len_) == lvr(fin, len_ - it.index@, len_) * d as int + remainder as int,/*-*/
+    {
+        /*+*/let ghost k = it.index@;
+        let ghost i = len_ - 1 - k;
+        let ghost r_in = remainder as int;
+        let ghost u_in = *u;
+        proof { assert(u_in == old_s[i]); }/*-*/
+        let (q, r) = div_3x2(remainder, *u, d, v);
+        *u = q;
+        remainder = r;
+        /*+*/proof {
+            assert(fin[i] == q);
+            let a = lvr(old_s, i + 1, len_);
+            let f = lvr(fin, i + 1, len_);
+            assert(lvr(old_s, i, len_) == u_in as int + B * a);
+            assert(lvr(fin, i, len_) == q as int + B * f);
+            assert((u_in as int + B * a) == (q as int + B * f) * d as int + r as int) by(nonlinear_arith)
+                requires a == f * d as int + r_in, q as int * d as int + r as int == r_in * B + u_in as int;
+        }/*-*/
+    }
+    /*+*/proof { assert(final(u)@ == fin); }/*-*/
+    remainder
+}
+//@ end
+
 } // verus!
 fn main() {}
